@@ -42,6 +42,9 @@ pub struct Params {
     pub capacity: usize,
     pub read_menu: bool,
     pub write_menu: bool,
+    /// > 0: both directions are slow links — `capacity` bytes in flight, delivered after this many seconds of virtual
+    /// time (every write is cut in mid-frame by long stalls)
+    pub latency_s: u64,
 }
 
 fn vl(v: &Arc<Mutex<Vec<(String, String)>>>, k: &str, d: String) {
@@ -181,8 +184,8 @@ pub fn make(p: Params) -> ScenarioFn {
         let p = p.clone();
         async move {
             let mut out = Outcome::default();
-            let mut c2s = PipeCfg::new("c2s").menus(p.read_menu, p.write_menu).capacity(p.capacity);
-            let mut s2c = PipeCfg::new("s2c").menus(p.read_menu, p.write_menu).capacity(p.capacity);
+            let mut c2s = PipeCfg::new("c2s").menus(p.read_menu, p.write_menu).capacity(p.capacity).latency(Duration::from_secs(p.latency_s));
+            let mut s2c = PipeCfg::new("s2c").menus(p.read_menu, p.write_menu).capacity(p.capacity).latency(Duration::from_secs(p.latency_s));
             c2s.log_data = false;
             s2c.log_data = false;
             let mut pair = match linked_pair(c2s, s2c, p.scheme, p.scheme, None).await {
@@ -388,7 +391,7 @@ pub fn banner_json(p: &BannerParams) -> serde_json::Value {
 }
 
 pub fn params_json(p: &Params) -> serde_json::Value {
-    json!({"streams": p.streams, "scheme": p.scheme_name, "capacity": if p.capacity == usize::MAX { -1 } else { p.capacity as i64 },
+    json!({"streams": p.streams, "scheme": p.scheme_name, "capacity": if p.capacity == usize::MAX { -1 } else { p.capacity as i64 }, "latency_s": p.latency_s,
         "read_menu": p.read_menu, "write_menu": p.write_menu,
         "flows": p.flows.iter().map(|f| json!({"s": f.stream + 1, "up": f.up, "path": format!("{:?}", f.path), "chunks": f.chunks, "rbuf": f.read_buf, "read_calls": f.read_pattern})).collect::<Vec<_>>()})
 }
@@ -445,6 +448,7 @@ pub fn all_params(tier: Tier) -> Vec<(Params, usize)> {
                             capacity: usize::MAX,
                             read_menu: false,
                             write_menu: false,
+                            latency_s: 0,
                         },
                         0,
                     ));
@@ -462,6 +466,7 @@ pub fn all_params(tier: Tier) -> Vec<(Params, usize)> {
                                     capacity: cap,
                                     read_menu: false,
                                     write_menu: false,
+                                    latency_s: 0,
                                 },
                                 0,
                             ));
@@ -486,7 +491,7 @@ pub fn all_params(tier: Tier) -> Vec<(Params, usize)> {
         for seq in aseqs {
             for up in [true, false] {
                 v.push((
-                    Params { streams: 1, flows: vec![Flow { stream: 0, up, path: Path::Direct, chunks: seq.clone(), read_buf: 8192, read_pattern: vec![] }], scheme: STOP0, scheme_name: "stop0", capacity: usize::MAX, read_menu: false, write_menu: false },
+                    Params { streams: 1, flows: vec![Flow { stream: 0, up, path: Path::Direct, chunks: seq.clone(), read_buf: 8192, read_pattern: vec![] }], scheme: STOP0, scheme_name: "stop0", capacity: usize::MAX, read_menu: false, write_menu: false, latency_s: 0 },
                     0,
                 ));
             }
@@ -501,17 +506,26 @@ pub fn all_params(tier: Tier) -> Vec<(Params, usize)> {
             continue; // quick: the tiny and branchy schemes take every shaper branch
         }
         // two streams upstream, direct path, short reads straddling headers
-        v.push((Params { streams: 2, flows: vec![f(0, true, Path::Direct, &[1, 7], 7), f(1, true, Path::Direct, &[8, 30], 8192)], scheme, scheme_name, capacity: usize::MAX, read_menu: true, write_menu: false }, b));
+        v.push((Params { streams: 2, flows: vec![f(0, true, Path::Direct, &[1, 7], 7), f(1, true, Path::Direct, &[8, 30], 8192)], scheme, scheme_name, capacity: usize::MAX, read_menu: true, write_menu: false, latency_s: 0 }, b));
         // two streams downstream through the forwarding task
-        v.push((Params { streams: 2, flows: vec![f(0, false, Path::Forward, &[1, 7], 7), f(1, false, Path::Forward, &[8, 30], 9)], scheme, scheme_name, capacity: usize::MAX, read_menu: true, write_menu: false }, b));
+        v.push((Params { streams: 2, flows: vec![f(0, false, Path::Forward, &[1, 7], 7), f(1, false, Path::Forward, &[8, 30], 9)], scheme, scheme_name, capacity: usize::MAX, read_menu: true, write_menu: false, latency_s: 0 }, b));
         // both directions at once on one stream, short/pending writes
-        v.push((Params { streams: 1, flows: vec![f(0, true, Path::Direct, &[9, 0, 3], 4), f(0, false, Path::Forward, &[5, 12], 8192)], scheme, scheme_name, capacity: usize::MAX, read_menu: false, write_menu: true }, b.min(2)));
+        v.push((Params { streams: 1, flows: vec![f(0, true, Path::Direct, &[9, 0, 3], 4), f(0, false, Path::Forward, &[5, 12], 8192)], scheme, scheme_name, capacity: usize::MAX, read_menu: false, write_menu: true, latency_s: 0 }, b.min(2)));
         // back-pressure: 3000-byte chunks through a 1000-byte pipe, both directions
-        v.push((Params { streams: 1, flows: vec![f(0, true, Path::Direct, &[3000], 8192), f(0, false, Path::Direct, &[2500], 700)], scheme, scheme_name, capacity: 1000, read_menu: false, write_menu: false }, b.min(2)));
+        v.push((Params { streams: 1, flows: vec![f(0, true, Path::Direct, &[3000], 8192), f(0, false, Path::Direct, &[2500], 700)], scheme, scheme_name, capacity: 1000, read_menu: false, write_menu: false, latency_s: 0 }, b.min(2)));
+    }
+    // slow links: 16 bytes in flight, delivered after 16 / 31 / 61 s — every write is cut in mid-frame by long stalls
+    for (scheme, scheme_name) in [(STOP0, "stop0"), (TINY, "tiny")] {
+        for lat in [16u64, 31, 61] {
+            if !thorough && scheme_name == "tiny" && lat != 31 {
+                continue;
+            }
+            v.push((Params { streams: 2, flows: vec![f(0, true, Path::Direct, &[20, 90], 8192), f(1, true, Path::Forward, &[33], 7), f(0, false, Path::Forward, &[50, 8], 8192)], scheme, scheme_name, capacity: 16, read_menu: false, write_menu: false, latency_s: lat }, if thorough { 1 } else { 0 }));
+        }
     }
     // a chunk larger than a frame with transport deviations
-    v.push((Params { streams: 1, flows: vec![f(0, true, Path::Direct, &[70000, 5], 8192)], scheme: STOP0, scheme_name: "stop0", capacity: usize::MAX, read_menu: true, write_menu: false }, 1));
-    v.push((Params { streams: 1, flows: vec![f(0, false, Path::Forward, &[65536], 8192)], scheme: STOP0, scheme_name: "stop0", capacity: usize::MAX, read_menu: false, write_menu: true }, 1));
+    v.push((Params { streams: 1, flows: vec![f(0, true, Path::Direct, &[70000, 5], 8192)], scheme: STOP0, scheme_name: "stop0", capacity: usize::MAX, read_menu: true, write_menu: false, latency_s: 0 }, 1));
+    v.push((Params { streams: 1, flows: vec![f(0, false, Path::Forward, &[65536], 8192)], scheme: STOP0, scheme_name: "stop0", capacity: usize::MAX, read_menu: false, write_menu: true, latency_s: 0 }, 1));
     v
 }
 
